@@ -1146,13 +1146,16 @@ def parse_writer(T, W, mod, name, wd, computed_ids):
             fty = fields[fname]
             mo = re.fullmatch(r"Option<(.+)>", fty)
             it = writer_field_item(T, W, mod, mo.group(1) if mo else fty)
+            inner_ty = mo.group(1) if mo else fty
+            mv = re.fullmatch(r"Vec<(\w+)>", inner_ty)
+            wtype = mv.group(1) if mv else (inner_ty if re.fullmatch(r"\w+", inner_ty) else None)
             if it[0] == "scalar":
                 return {"name": fname, "kind": "scalar", "src": ".field", "size": it[1], "offset": it[2], "opt": bool(mo), "ty": fty}
             if it[0] == "arrayV":
-                return {"name": fname, "kind": "arrayV", "pre": it[1], "tail": it[2], "fixed": it[3], "isrec": True, "opt": bool(mo)}
+                return {"name": fname, "kind": "arrayV", "pre": it[1], "tail": it[2], "fixed": it[3], "isrec": True, "opt": bool(mo), "wtype": wtype}
             if it[0] == "arrayL":
                 return {"name": fname, "kind": "arrayL", "hw": it[1], "item": it[2], "fixed": None, "isrec": True, "opt": bool(mo)}
-            return {"name": fname, "kind": "array", "elem": it[1], "fixed": it[2], "isrec": it[3], "opt": bool(mo)}
+            return {"name": fname, "kind": "array", "elem": it[1], "fixed": it[2], "isrec": it[3], "opt": bool(mo), "wtype": wtype if it[3] else None}
         for (rx, a, b) in COUNT_RES:
             mm = re.fullmatch(rx, expr)
             if mm:
@@ -1472,7 +1475,20 @@ def build_pair(T, W, R, mod, name, wd, computed_ids):
     # hidden from the correspondence rendering: fields without a getter, and scalars wider than 8 bytes (the
     # traversal renders them as `Unknown`)
     hidden = [(not f.get("getter", True)) or (f["kind"] == "scalar" and f["size"] > 8) for f in rfields]
+    # array items whose element type is a generated record: (field name, writer type, expected flat layout, reader elem type)
+    elem_links = []
+    for d in wst:
+        if d.get("wtype") and d["kind"] in ("array", "arrayV"):
+            rf = next((f for f, mn in zip(rfields, mnames) if mn == d["name"]), None)
+            if d["kind"] == "array":
+                sh = (d["elem"], None)
+            else:
+                sh = (d["pre"], d["tail"])
+            elem_links.append({"field": d["name"], "wtype": d["wtype"], "shape": sh, "single": d["fixed"] == 1,
+                               "rtype": rf.get("elemty") if rf is not None and rf["kind"] == "array" else None,
+                               "relem": rf.get("elem") if rf is not None and rf["kind"] == "array" else None})
     return {"kind": kind, "assumes": assumes, "assume_text": assume_text, "names": names + extra, "w": wl, "r": rl, "show": shown, "hidden": hidden,
+            "elem_links": elem_links,
             "computed": [d["computed"] for d in wst if d.get("computed")],
             "nstmts": len(wd["stmts"]), "reader": rkey, "args": [a for a, _ in rargs],
             "features": sorted(set(
@@ -1721,6 +1737,34 @@ def main():
             L.append(f"def {k}_assumes : List Assume := []")
             L.append(f"theorem {k}_compat : compat {k}_w {k}_r = true := by decide +kernel")
         L.append("")
+    # elements that are records with their own pair: the flat layout the table's array item uses is the layout of the
+    # record's own writer program (and, for fixed-size records, of its reader layout)
+    by_reader = {}
+    for k, v in covered.items():
+        by_reader.setdefault(v["reader"], k)
+    n_elem = 0
+    for k in sorted(covered):
+        v = covered[k]
+        kmod = k[:-(len(v["type"]) + 1)]
+        for ln in v["elem_links"]:
+            if ln["wtype"] == "ValueRecord" and "ValueRecord" not in W.get(kmod, {}):
+                continue        # the hand-written GPOS ValueRecord (Props/C04Hand.lean value_record_is_arrayV_element)
+            rec, rmod = find_writer_record(W, kmod, ln["wtype"])
+            rk = f"{rmod}_{ln['wtype']}"
+            if rec is None or rk not in covered:
+                continue
+            pre, tail = ln["shape"]
+            if tail is None and ln["single"]:
+                continue
+            want = f"({lean_list([str(x) for x in pre])}, {'none' if tail is None else f'some {tail}'})"
+            facts = [f"wShape {rk}_w = some {want}"]
+            rrk = by_reader.get((v["reader"][0], ln["rtype"])) if ln["rtype"] else None
+            if tail is None and rrk is not None and covered[rrk]["kind"] == "record" and not covered[rrk]["args"]:
+                facts.append(f"rFixed {rrk}_r = some {lean_list([str(x) for x in ln['relem']])}")
+            L.append(f"/-- the elements of `{v['type']}.{ln['field']}` are `{ln['wtype']}` records: the item's flat layout is the layout of the record's own programs -/")
+            L.append(f"theorem {k}_{ln['field']}_elem : {' ∧ '.join(facts)} := by decide +kernel")
+            n_elem += 1
+    L.append("")
     for k in sorted(enums_cov):
         v = enums_cov[k]
         L.append(f"/-- format enum `{v['type']}`: " + ", ".join(f"{n} = {fmt}" for (n, _, fmt) in v["variants"]) + " -/")
@@ -1828,6 +1872,7 @@ def main():
         "assumed": {k: covered[k]["assume_text"] for k in cov_names if covered[k]["assumes"]},
         "not_covered": not_covered,
         "not_covered_reasons": dict(sorted(reasons.items(), key=lambda kv: -kv[1])),
+        "element_record_links": n_elem,
         "enums_in_generated": len(enums_cov) + len(enums_not),
         "enums_covered": {k: [f"{n}={fmt}" for (n, _, fmt) in v["variants"]] for k, v in enums_cov.items()},
         "enums_not_covered": enums_not,
